@@ -38,7 +38,8 @@ Proof. intros H H' E. unfold gpr_name, n_gpr64, n_gpr32 in E. destruct m; cbn [n
 (* ---------- well-formed machine states and the embedding into IL states ---------- *)
 Record wf (m : mode) (s : xstate) : Prop := {
   wf_len : length (x_gpr s) = Z.to_nat (ngpr m);
-  wf_rng : forall r, 0 <= r < ngpr m -> 0 <= rget (x_gpr s) r < 2 ^ wordsz m }.
+  wf_rng : forall r, 0 <= r < ngpr m -> 0 <= rget (x_gpr s) r < 2 ^ wordsz m;
+  wf_bytes : forall a b, mem_rd1 (x_mem s) a = Some b -> 0 <= b < 256 }.
 
 Definition kDF : skey := (X86Run.n_DF, None).
 (* a flag the specification leaves undefined may hold anything (but is a 1-bit scalar) *)
@@ -55,7 +56,8 @@ Record emb (m : mode) (s : xstate) (st : sstate) : Prop := {
   emb_sf : emb_flag (f_sf (x_fl s)) (st_env st) kSF;
   emb_of : emb_flag (f_of (x_fl s)) (st_env st) kOF;
   emb_df : emb_flag (f_df (x_fl s)) (st_env st) kDF;
-  emb_mem : forall a, mem_rd1 (x_mem s) a = bm_get (st_mem st) a }.
+  emb_mem : forall a, mem_rd1 (x_mem s) a = bm_get (st_mem st) a;
+  emb_le : bm_big (st_mem st) = false }.
 
 (* ---------- running a one-block graph ---------- *)
 Lemma assign_not_branch ops : forallb is_assign ops = true -> forall o, In o ops -> is_branch o = false.
@@ -227,7 +229,7 @@ Qed.
 
 Lemma wf_set_gpr m s g' f : wf m s -> length g' = length (x_gpr s) ->
   (forall r, 0 <= r < ngpr m -> 0 <= rget g' r < 2 ^ wordsz m) -> wf m (set_fl (set_gpr s g') f).
-Proof. intros Hw Hl Hr. constructor; cbn [set_fl set_gpr x_gpr]; [rewrite Hl; apply (wf_len _ _ Hw)|exact Hr]. Qed.
+Proof. intros Hw Hl Hr. constructor; cbn [set_fl set_gpr x_gpr x_mem]; [rewrite Hl; apply (wf_len _ _ Hw)|exact Hr|apply (wf_bytes _ _ Hw)]. Qed.
 
 Lemma arch_write_range sd fb x y : shape_valid fb sd -> 0 <= x < 2 ^ fb -> 0 <= y < 2 ^ shape_bits fb sd ->
   0 <= arch_write sd fb x y < 2 ^ fb.
@@ -267,7 +269,8 @@ Proof.
   destruct (emb_frame m s st st' (oreg dst) g' _ Hw He Hr Fr Ev Gv Go) as (Eg & Ed).
   split.
   - constructor; cbn [set_fl set_gpr x_gpr x_fl x_mem fl_arith f_cf f_zf f_sf f_of f_df emb_flag]; try assumption.
-    intros a. rewrite Hm. apply (emb_mem _ _ _ He).
+    + intros a. rewrite Hm. apply (emb_mem _ _ _ He).
+    + rewrite Hm. apply (emb_le _ _ _ He).
   - apply wf_set_gpr; [exact Hw|exact Lg|]. intros r' Hr'.
     destruct (Z.eq_dec r' (oreg dst)) as [->|N].
     + rewrite Gv. apply arch_write_range; [exact Vd|apply (wf_rng _ _ Hw); exact Hr|rewrite Bd; exact Hres].
@@ -297,7 +300,7 @@ Proof.
   unfold step in Hstep. rewrite Rd, Rs in Hstep. cbn [alu_reads_cf alu_writes alu] in Hstep. fold a in Hstep.
   rewrite Hwr in Hstep. inversion Hstep; subst s' ip.
   exists (one_block addr ops). split.
-  - unfold mirror_instr. rewrite Hi, (src_regimm _ _ _ Hsrc). cbn [andb lift_alu option_map].
+  - unfold mirror_instr. rewrite Hi, (src_regimm _ _ _ Hsrc). unfold lift_alu; unfold lift_alu_rhs; cbn [andb lift_alu_gen option_map].
     rewrite Ol, Os. cbn [bind]. rewrite Hops. reflexivity.
   - exists st2. auto.
 Qed.
@@ -322,7 +325,7 @@ Proof.
   unfold step in Hstep. rewrite Rd, Rs in Hstep. cbn [alu_reads_cf alu_writes alu] in Hstep. fold a in Hstep.
   rewrite Hwr in Hstep. inversion Hstep; subst s' ip.
   exists (one_block addr ops). split.
-  - unfold mirror_instr. rewrite Hi, (src_regimm _ _ _ Hsrc). cbn [andb lift_alu option_map].
+  - unfold mirror_instr. rewrite Hi, (src_regimm _ _ _ Hsrc). unfold lift_alu; unfold lift_alu_rhs; cbn [andb lift_alu_gen option_map].
     rewrite Ol, Os. cbn [bind]. rewrite Hops. reflexivity.
   - exists st2. auto.
 Qed.
@@ -365,7 +368,7 @@ Proof.
   exists (one_block addr ops). split.
   - unfold mirror_instr. rewrite Hi, (src_regimm _ _ _ Hsrc). cbn [andb].
     assert (Q: lift_alu m o sz dst src = Some (Ok ops)).
-    { destruct o; try discriminate; inversion Hl; subst op f; cbn [lift_alu]; rewrite Ol, Os; cbn [bind andb];
+    { destruct o; try discriminate; inversion Hl; subst op f; unfold lift_alu; unfold lift_alu_rhs; cbn [lift_alu_gen]; rewrite Ol, Os; cbn [bind andb];
         try (rewrite (Hne eq_refl lhs rhs Ol Os)); cbn [andb]; rewrite <- Hops; reflexivity. }
     rewrite Q. reflexivity.
   - exists st2. auto.
@@ -387,14 +390,15 @@ Proof.
   unfold step in Hstep. rewrite Rd, Rs in Hstep. cbn [alu_reads_cf alu_writes alu] in Hstep. fold a in Hstep.
   inversion Hstep; subst s' ip.
   exists (one_block addr ops). split.
-  - unfold mirror_instr. rewrite Hi, (src_regimm _ _ _ Hsrc). cbn [andb lift_alu option_map].
+  - unfold mirror_instr. rewrite Hi, (src_regimm _ _ _ Hsrc). unfold lift_alu; unfold lift_alu_rhs; cbn [andb lift_alu_gen option_map].
     rewrite Ol, Os. cbn [bind]. rewrite Hops. reflexivity.
   - exists st'. split; [apply run_one_block; try assumption; [destruct ops; [cbn in Hlen; lia|discriminate]|lia]|].
     destruct (emb_frame m s st st' (oreg dst) (x_gpr s) _ Hw He Hr Hfr Ev eq_refl (fun _ _ _ => eq_refl)) as (Eg & Ed).
     split.
     + constructor; cbn [set_fl x_gpr x_fl x_mem fl_arith f_cf f_zf f_sf f_of f_df emb_flag]; try assumption.
-      intros a0. rewrite Hm. apply (emb_mem _ _ _ He).
-    + constructor; cbn [set_fl x_gpr]; [apply (wf_len _ _ Hw)|apply (wf_rng _ _ Hw)].
+      * intros a0. rewrite Hm. apply (emb_mem _ _ _ He).
+      * rewrite Hm. apply (emb_le _ _ _ He).
+    + constructor; cbn [set_fl x_gpr x_mem]; [apply (wf_len _ _ Hw)|apply (wf_rng _ _ Hw)|apply (wf_bytes _ _ Hw)].
 Qed.
 
 (* ---------- inc / dec ---------- *)
@@ -434,7 +438,7 @@ Proof.
   exists (one_block addr ops). split.
   - unfold mirror_instr. rewrite Hi.
     assert (Q: lift_un m (if sub then UDec else UInc) sz dst = Some (Ok ops)).
-    { destruct sub; cbn [lift_un]; rewrite Ol; cbn [bind]; rewrite <- Hops; reflexivity. }
+    { destruct sub; unfold lift_un; cbn [lift_un_gen]; rewrite Ol; cbn [bind]; rewrite <- Hops; reflexivity. }
     rewrite Q. reflexivity.
   - exists st2. auto.
 Qed.
@@ -479,7 +483,8 @@ Proof.
       * apply Fl; [unfold kSF; congruence|apply (emb_sf _ _ _ He)].
       * apply Fl; [unfold kOF; congruence|apply (emb_of _ _ _ He)].
       * intros a0. apply (emb_mem _ _ _ He).
-    + constructor; cbn [set_gpr x_gpr]; [rewrite Lg; apply (wf_len _ _ Hw)|].
+      * apply (emb_le _ _ _ He).
+    + constructor; cbn [set_gpr x_gpr x_mem]; [rewrite Lg; apply (wf_len _ _ Hw)| |apply (wf_bytes _ _ Hw)].
       intros r' Hr'. destruct (Z.eq_dec r' (oreg dst)) as [->|N].
       * rewrite Gv. apply arch_write_range; [exact Vd|apply (wf_rng _ _ Hw); exact Hr|exact Hb'].
       * rewrite Go by lia. apply (wf_rng _ _ Hw). exact Hr'.
@@ -525,7 +530,8 @@ Proof.
     + apply Fl; [unfold kSF; congruence|apply (emb_sf _ _ _ He)].
     + apply Fl; [unfold kOF; congruence|apply (emb_of _ _ _ He)].
     + intros a0. apply (emb_mem _ _ _ He).
-  - constructor; cbn [set_gpr x_gpr]; [rewrite Lg; apply (wf_len _ _ Hw)|].
+    + apply (emb_le _ _ _ He).
+  - constructor; cbn [set_gpr x_gpr x_mem]; [rewrite Lg; apply (wf_len _ _ Hw)| |apply (wf_bytes _ _ Hw)].
     intros r' Hr'. destruct (Z.eq_dec r' (oreg dst)) as [->|N].
     + rewrite Gv. apply arch_write_range; [exact Vd|apply (wf_rng _ _ Hw); exact Hr|exact Hb'].
     + rewrite Go by lia. apply (wf_rng _ _ Hw). exact Hr'.
